@@ -294,9 +294,19 @@ func runC06(c *fw.Ctx, idx int) fw.Result {
 	for _, t := range ts {
 		tsRecs = append(tsRecs, t.rec)
 	}
+	plain := n == 0 && D == -1.0
+	if (plain || !table) && len(qs) >= 2 && r.Chance(0.25) {
+		// two query records with one ID (a re-sequenced sample): each is a query of its own and gets
+		// its own row, in file order (the row-per-query outputs are read by position here)
+		k, j := r.Intn(len(qs)), r.Intn(len(qs))
+		if k != j {
+			qs = append([]gen.FastaRec{}, qs...)
+			qs[j].ID, qs[j].Desc = qs[k].ID, qs[k].Desc
+			res.Count("cases_with_repeated_query_id", 1)
+		}
+	}
 	qText := noFinalNL(r, gen.RenderFasta(qs, gen.PickLineWidth(r, W)))
 	tText := noFinalNL(r, gen.RenderFasta(tsRecs, gen.PickLineWidth(r, W)))
-	plain := n == 0 && D == -1.0
 	var out string
 	var err error
 	argv := []string{"closest", "-m", measure, "-n", fmt.Sprint(n), "-d", fmt.Sprint(D), fmt.Sprintf("--table=%v", table), "-t", fmt.Sprint(threads)}
